@@ -31,7 +31,7 @@ def explore(ck):
     r = ck.rng; quick = ck.tier == 'quick'
     ck.rule = ('opreturn runs on chains whose outputs carry OP_RETURN <one push> for every push form (direct, PUSHDATA1/2/4, minimal and non-minimal) x payload length 0..3000 x {ASCII, multi-byte UTF-8, '
                'invalid UTF-8, embedded newlines and look-alike lines, valid text made of U+FFFD / BOM / noncharacters / NUL / range ends}, several OP_RETURN outputs per transaction, OP_RETURN outputs that are not a single push, mixed with every other script type, '
-               'x bitcoin/testnet3/fork coins x ranges x verbosity (default and -vv), and runs that fail inside the last block (the lines of the blocks before it must have been printed); the printed lines (height, txid, payload bytes) are compared with the model and with the property evaluated by the python reference '
+               'x bitcoin/testnet3/fork coins x ranges x verbosity (default and -vv), runs printing more than 128 KiB of lines, and runs that fail inside the last block (the lines of the blocks before it must have been printed); the printed lines (height, txid, payload bytes) are compared with the model and with the property evaluated by the python reference '
                '(printed iff single push, non-empty and - on bitcoin/testnet3 - valid UTF-8; fork coins print the lossy text). Non-trivial: >= 1 printed and >= 1 suppressed OP_RETURN output in the '
                'same run; distinct by case.')
     P = payloads(r)
@@ -62,6 +62,13 @@ def explore(ck):
         if k % 3 == 1: c.verbosity = 1          # -v
         if k % 3 == 0: c.verbosity = 2          # -vv: debug/trace output interleaved with the lines must change neither the lines nor the exit status
         c.meta['blocks'] = blocks; cases.append(c)
+    # more than 128 KiB of printed lines in one run (any buffering of the lines that is not flushed line by line would interleave with the log output on the same stream)
+    for k2, (coin, vb) in enumerate([('bitcoin', 0), ('litecoin', 1)]):
+        blocks = []; prev = b'\x00' * 32
+        for h in range(30):
+            txs = [coinbase_tx(h, [(50 * 10**8, P2PKH(gen.rb(r, 20)))])] + [Tx([(gen.rb(r, 32), 0, b'', 0)], [(0, b'\x6a' + push(('note %d/%d/%d ' % (h, j, o)).encode() + b'ab' * 40)) for o in range(10)]) for j in range(4)]
+            b = Block(prev, txs, time=1400000000 + h); blocks.append(b); prev = b.hash
+        c = Case('bigout%d' % k2, coin).simple_layout(blocks); c.verbosity = vb; c.meta['blocks'] = blocks; cases.append(c)
     def nontrivial(c, m):
         printed = len(m['opret']); total = sum(1 for b in c.meta['blocks'] for t in b.txs for v, s in t.outputs if s[:1] == b'\x6a')
         return c.id if printed and total > printed else None
